@@ -21,7 +21,8 @@ from ..simfs import SimFS, Policy
 KWS = [{}, {"engine": "normal"}, {"mnemonic_case": "preserve"}, {"null_policy": "none"}, {"ignore_header_errors": True},
        {"mnemonic_case": "lower", "engine": "normal"}, {"null_policy": "common"}, {"read_policy": []}, {"ignore_data": True}]
 LATIN = ["Åsgard Ølje", "Société Générale", "Müller & Söhne", "Peña Nieto S.A.", "£ ± µ ¿ ß"]
-WIDE = ["Нефть и газ", "井戸 検層", "𝒲ell 𝓛og 😀", "Ελληνικά", "Łódź Żółć"]
+WIDE = ["Нефть и газ", "井戸 検層", "𝒲ell 𝓛og 😀", "Ελληνικά", "Łódź Żółć", "para\u2028graph sep", "line\u2029sep"]
+ODDSEP = ["next\x85line", "form\x0cfeed", "vt\x0btab", "fs\x1cgs\x1drs\x1e", "nbsp\xa0here", "soft\xadhyphen"]   # str.splitlines() boundaries
 MUTATIONS = ["well_value", "well_append", "well_delete", "version_value", "curve_inplace", "curve_append", "rename_item",
              "params_append", "other_text", "curve_delete"]
 
@@ -30,7 +31,7 @@ def make_doc(g, kind):
     """-> {"lines": [...], "wide": bool}"""
     if kind == "nonascii":
         wide = g.random() < 0.4
-        pool = WIDE if wide else LATIN
+        pool = WIDE if wide else (LATIN + ODDSEP if g.random() < 0.5 else LATIN)
         doc = docmodel.std_doc(g, custom=g.choice([0, 1]))
         for sec in doc["sections"]:
             if sec["kind"] == "W":
@@ -87,7 +88,15 @@ def draw_channel(g, doc):
     cfg = {"channel": ch, "codec": "utf-8", "explicit": True, "newline": "\n"}
     ascii_only = all(ln.isascii() for ln in doc["lines"])
     if ch in FILE_CHANNELS:
-        codecs = ["utf-8", "utf-8-sig", "utf-16"] + ([] if doc["wide"] else ["latin-1", "cp1252"])
+        text = "\n".join(doc["lines"])
+        codecs = ["utf-8", "utf-8-sig", "utf-16"]
+        for c in ("latin-1", "cp1252"):
+            try:
+                text.encode(c)
+                if text.encode(c).decode(c) == text:
+                    codecs.append(c)
+            except UnicodeError:
+                pass
         cfg["codec"] = g.choice(codecs)
         cfg["newline"] = g.choice(["\n", "\n", "\r\n", "\r"])
         if cfg["codec"] == "utf-8-sig":
